@@ -15,6 +15,11 @@ git apply MUTANT/patch.diff
 echo "-- test suites WITH the change"
 t1=$(cargo test --workspace --lib --offline 2>&1 | grep -E "^test result" | awk '{p+=$4; f+=$6} END {print p" passed "f" failed"}')
 t2=$(cargo test -p ohkami --lib --features rt_tokio,sse,openapi,DEBUG --offline 2>&1 | grep -E "^test result" | awk '{p+=$4; f+=$6} END {print p" passed "f" failed"}')
+# `ohkami::can_howl_on_any_native_async_runtime` measures three seconds of wall clock and fails on a loaded machine, with or
+# without any change: one retry
+if [ "$t2" != "44 passed 0 failed" ]; then
+    t2=$(cargo test -p ohkami --lib --features rt_tokio,sse,openapi,DEBUG --offline 2>&1 | grep -E "^test result" | awk '{p+=$4; f+=$6} END {print p" passed "f" failed"}')
+fi
 echo "-- demo WITH the change"
 ( cd MUTANT/demo && eval "$demo_cmd" ) >/tmp/mut/$P.with.log 2>&1; with=$?
 echo "baseline: $t1 | feature-gated: $t2 | demo without change: exit $without | demo with change: exit $with"
